@@ -472,6 +472,8 @@ impl WalRecord {
     }
 }
 
+const MAX_WAL_RECORD_LEN: u32 = 1024 * 1024; // 1MB
+
 #[derive(Debug)]
 pub struct Wal {
     path: PathBuf,
@@ -504,6 +506,10 @@ impl Wal {
         };
         let body = record.encode_body()?;
         let len = u32::try_from(body.len()).map_err(|_| Error::WalRecordTooLarge(u32::MAX))?;
+        if len > MAX_WAL_RECORD_LEN {
+            // The reader treats such a length as the end of the log; never write one.
+            return Err(Error::WalRecordTooLarge(len));
+        }
         let crc = crc32(&body);
 
         let offset = file.metadata()?.len();
@@ -520,6 +526,25 @@ impl Wal {
             return Err(Error::WalProtocol("wal file is closed"));
         };
         file.sync_data()?;
+        Ok(())
+    }
+
+    /// Cuts off whatever follows the last completely written record (a torn record,
+    /// garbage, zero-filled space). Records are appended at the end of the file, so
+    /// anything appended behind such a tail would be unreadable on the next open.
+    pub fn truncate_invalid_tail(&mut self) -> Result<()> {
+        let Some(file) = self.file.as_mut() else {
+            return Err(Error::WalProtocol("wal file is closed"));
+        };
+        let valid_end = {
+            let mut reader = WalReader::open(&self.path)?;
+            while reader.next_record()?.is_some() {}
+            reader.offset
+        };
+        if file.metadata()?.len() > valid_end {
+            file.set_len(valid_end)?;
+            file.sync_data()?;
+        }
         Ok(())
     }
 
@@ -543,6 +568,9 @@ impl Wal {
                 let body = record.encode_body()?;
                 let len =
                     u32::try_from(body.len()).map_err(|_| Error::WalRecordTooLarge(u32::MAX))?;
+                if len > MAX_WAL_RECORD_LEN {
+                    return Err(Error::WalRecordTooLarge(len));
+                }
                 let crc = crc32(&body);
                 file.write_all(&len.to_le_bytes())?;
                 file.write_all(&crc.to_le_bytes())?;
@@ -722,9 +750,10 @@ impl WalReader {
             return Ok(None);
         };
 
-        const MAX_WAL_RECORD_LEN: u32 = 1024 * 1024; // 1MB
-        if len > MAX_WAL_RECORD_LEN {
-            return Err(Error::WalRecordTooLarge(len));
+        if len == 0 || len > MAX_WAL_RECORD_LEN {
+            // No record is ever written with such a length: this is a torn or
+            // garbage tail (e.g. zero-filled space), i.e. the end of the log.
+            return Ok(None);
         }
 
         let Some(crc) = self.try_read_u32()? else {
